@@ -24,7 +24,7 @@ RULE = ("class skeletons = bases {none, one, two, inherited, diamond, base with 
         "class, class in class in function, global-declared in a function, captured by a closure, "
         "after an earlier class statement of the same name in the same module / function scope, as "
         "the taken alternative of an if/else whose other branch defines the same name}, "
-        "each with every member set of size 1 and 2 from 26 member kinds (data, computed, method, "
+        "each with every member set of size 1 and 2 from 27 member kinds (data, computed, method, "
         "static/class method, property+setter, zero- and two-argument super, __init__, decorated and "
         "plain __init_subclass__, nested class, if/while/for in the body, comprehension, lambda, "
         "closure over a module global, private-looking single underscore); size-3 sets drawn by "
@@ -106,6 +106,8 @@ MEMBERS = {
     "falsy_data": "    x = 0\n    nn = None\n    ee = []\n    ff = False\n    ss = ''\n    y = x\n    nm = nn\n    em = ee\n    fm = ff\n    sm = [ss for _e in range(1)] + [ss]\n",
     # ... also for names the body reads BEFORE binding them (the lowering then tests whether the member exists)
     "readbefore_falsy": "    GLOB = GLOB and None\n    again = GLOB\n    PV = PV if False else 0\n    pv2 = PV\n    both = [GLOB, PV]\n",
+    # a member bound by a statement that does NOT run (untaken branch, zero-iteration loop), read by a later one
+    "cond_member": "    if GLOB == 'never':\n        PV = 'class'\n        GLOB = 'class'\n        cm = 1\n    lbl = PV\n    lbl2 = [GLOB]\n    for PV in []:\n        pass\n    lbl3 = PV\n    while False:\n        GLOB = 0\n    lbl4 = GLOB\n",
     # an f-string in the class body that reads members (a subscript with a string key after lowering)
     "fstr": "    lbl = 'v'\n    wid = 4\n    txt = f\"{lbl}:{lbl!r:>{wid}}|{'q'}\"\n    def show(self):\n        return f'{self.lbl}-{self.txt}'\n",
     "deco_method": "    @fdeco\n    def dm(self, a=1):\n        return a * 2\n",
